@@ -194,3 +194,17 @@ pub proof fn lemma_fsum_nonneg<A>(s: Seq<A>, f: spec_fn(A) -> real)
 		lemma_fsum_nonneg(s.drop_last(), f);
 	}
 }
+pub proof fn lemma_sum_all_eq(s: Seq<R>, x: real)
+	requires forall|i: int| 0 <= i < s.len() ==> (#[trigger] s[i])@ == x
+	ensures sum(s) == (s.len() as real) * x
+	decreases s.len()
+{
+	if s.len() == 0 {
+		assert(0real * x == 0real) by(nonlinear_arith);
+	} else {
+		lemma_sum_all_eq(s.drop_last(), x);
+		let (mr, nr) = (s.drop_last().len() as real, s.len() as real);
+		assert(mr == nr - 1real);
+		assert(mr * x + x == nr * x) by(nonlinear_arith) requires mr == nr - 1real;
+	}
+}
